@@ -139,6 +139,33 @@ CLAIMS['C20'] = dict(
           "targets are distinct sequences, so the order-dependence for duplicate sequences is outside the generated domain; "
           "N-terminal cutters are checked for all clauses except the enzyme one."),
     technique="TLC validation of recorded runs (incl. paired runs) against a TLA+ statement of the decoy contract", ref='6 C20')
+CLAIMS['C14'] = dict(
+    text=("spec/Parsers.tla gives the meaning of a VEP row as an edit of the chromosome (SNV, deletion, insertion between two "
+          "flanking bases, substitution of >= 3 bases, single-position multi-base allele) and of a small GVF record as an edit of "
+          "the gene sequence; VepTrace has TLC check, for every position from one base before to one base after each transcript of "
+          "random annotations (both strands) and every event kind, that the record the real VEPRecord.convert_to_variant_record "
+          "emits has REF = gene sequence and denotes exactly the gene re-extracted from the edited chromosome, that rejections "
+          "only happen at the transcript boundary and that events strictly inside are accepted. REDItools rows with counts at and "
+          "around every threshold must give one record per (exonic transcript, accepted substitution) at the mapped gene position."),
+    note="2-base substitutions (indistinguishable from insertions in VEP's columns) are outside the property; REDItools REF/ALT strand conventions are not checked.",
+    technique="TLA+ definitional spec; TLC validation of recorded parser outputs, exhaustive over positions per annotation", ref='6 C14')
+CLAIMS['C15'] = dict(
+    text=("Parsers.tla defines donor/acceptor positions and the fused sequence (donor transcript up to the left breakpoint incl. "
+          "retained intronic bases + acceptor from the right breakpoint). The real command lines parseSTARFusion, parseFusionCatcher "
+          "and parseArriba (argparse included) are run on generated tool files for all ordered gene pairs x breakpoints at exon "
+          "ends/starts, inside exons and in introns x evidence around the thresholds x unknown gene ids; FusionTrace has TLC check "
+          "one record per eligible transcript pair at the spec's positions, skipping, and that every FUSION-labelled peptide the real "
+          "callVariant produces from the STAR-Fusion GVF is a digestion product of the spec's fused sequence."),
+    note="REF base of fusion records is cosmetic and not checked; callVariant soundness is checked for STAR-Fusion output (the three parsers emit identical records).",
+    technique="TLA+ definitional spec; TLC validation of CLI outputs and of callVariant peptides", ref='6 C15')
+CLAIMS['C17'] = dict(
+    text=("Parsers.tla defines strand-corrected fragments, the circular sequence (genomic blocks in transcript orientation) and the "
+          "back-splice id; the real parseCIRCexplorer command line is run on generated CIRCexplorer2/3 files (every contiguous exon "
+          "subset, every intron with start/end perturbations, non-exon blocks, read number / fpb / score around the thresholds, "
+          "tolerance ranges); the emitted GVF is re-read with the real reader and CircTrace has TLC check fragments, sequence, id, "
+          "threshold and unknown-exon skipping, intron start tolerance, and the tally."),
+    note="The end tolerance of ciRNA introns is only checked for exact matches (the tool also accepts any block ending before the next exon).",
+    technique="TLA+ definitional spec; TLC validation of CLI outputs", ref='6 C17')
 PENDING = "not claimed in this revision: check not built yet (work in progress, see DESIGN.md section 12)"
 NA = {}
 
